@@ -79,6 +79,8 @@ static int build_hbops (int self, hbop *v) {
   v[n++] = (hbop) { 6, 3, 1, "clone-u" };
   v[n++] = (hbop) { 5, 3, 2, "clone-t2" };
   v[n++] = (hbop) { 7, self, 0, "error" };
+  v[n++] = (hbop) { 10, self, 1, "destruct-self-then-set_heart_beat" };
+  v[n++] = (hbop) { 10, self, 2, "destruct-self-then-set_heart_beat" };
   v[n++] = (hbop) { 8, self, 1, "self-shb" };
   v[n++] = (hbop) { 8, self, 2, "self-shb" };
   for (int t = 0; t < NOBJ; t++) v[n++] = (hbop) { 9, t, 1, "reload_object" };
@@ -367,8 +369,8 @@ static void body (void) {
   int ticks = 0;
   for (int step = 0; step < depth; step++) {
     vx_state (cb, (size_t) canon (cb, sizeof cb, step));
-    /* 0 stop | 1 tick | 2.. shb(X,v) 4x3 | destruct(X) 4 | clone-t(1) clone-u(1) clone-t(2) | unrelated uncaught error | schedule a faulting call_out | reload_object(X) 4 */
-    int op = vx_choose_free (2 + NOBJ * 3 + NOBJ + 3 + 2 + NOBJ, "step");
+    /* 0 stop | 1 tick | 2.. shb(X,v) 4x3 | destruct(X) 4 | clone-t(1) clone-u(1) clone-t(2) | unrelated uncaught error | schedule a faulting call_out | reload_object(X) 4 | X: destruct(self) then set_heart_beat(1) 4 */
+    int op = vx_choose_free (2 + NOBJ * 3 + NOBJ + 3 + 2 + NOBJ + NOBJ, "step");
     if (op == 0) break;
     if (op == 1) {
       if (ticks >= maxticks) vx_child_exit (0);
@@ -401,6 +403,13 @@ static void body (void) {
       svalue_t *errs1 = safe_apply_master_ob ("query_errors", 0);
       int n1 = (errs1 && errs1 != (svalue_t *) -1 && errs1->type == T_ARRAY) ? errs1->u.arr->size : 0;
       if (n1 != n0 + 1) fail_hist ("C11:error-not-reported", "unrelated error: master error_handler saw %d errors", n1 - n0);
+    } else if (op >= NOBJ * 3 + NOBJ + 5 + NOBJ) {
+      /* X destructs itself and then calls set_heart_beat(1) on its destructed self (the harness still holds X) */
+      int i = op - (NOBJ * 3 + NOBJ + 5 + NOBJ);
+      if (!live (i)) vx_child_exit (0);
+      push_number (1);
+      hx_apply (OB[i], "zombie", 1);
+      vx_obs ("top: O%d destructs itself, then set_heart_beat(1)", i);
     } else if (op >= NOBJ * 3 + NOBJ + 5) {
       int i = op - (NOBJ * 3 + NOBJ + 5);
       if (!live (i) || !M[i].n) vx_child_exit (0);        /* without heart beat it equals set_heart_beat(X,1) */
